@@ -1,7 +1,7 @@
 """C04 - composition parameters equal their published per-residue definitions; identities; permutation invariance."""
 import itertools
 
-from .. import core
+from .. import core, spaces
 from ..refmodel import tables as T
 from ..refmodel.composition import ref_vector, api_vector
 
@@ -259,6 +259,26 @@ def run(tier, seed, t0):
         cases.append({"kind": "block", "multiset": (T.AA * (n // 20 + 1))[:n], "perms": False})
         cases.append({"kind": "block", "multiset": ("WKRDEP" * (n // 6 + 1))[:n - 1] + "G", "perms": False})
         cases.append({"kind": "block", "multiset": "G" * (n - 1) + "W", "perms": False})
+    # irregular words over all 20 residues (every ordered pair of residues adjacent somewhere): many residue types at once,
+    # lengths 19..61 - the fractions and the means are sums of up to twenty different terms
+    for L_ in ((19, 23, 31, 47, 61) if tier == "quick" else (19, 20, 21, 23, 29, 31, 37, 41, 47, 53, 61, 97, 151)):
+        for w_ in spaces.window_complete_chunks(T.AA, 2, (L_,)):
+            cases.append({"kind": "block", "multiset": w_, "perms": False})
+    # means that nearly cancel: X^a Y^b with Wimley-White values of opposite sign and |a*WW[X] + b*WW[Y]| = 0.01 or 0.02 at a
+    # total of 101..300 residues (the mean is then a few 1e-5: tiny, not zero), for every such pair of residues
+    ww = {a: int(round(float(T.WW[a]) * 100)) for a in T.AA}
+    for x in T.AA:
+        for y in T.AA:
+            if ww[x] > 0 > ww[y]:
+                found = 0
+                for tot in range(101, 301):
+                    for a in range(1, tot):
+                        if abs(a * ww[x] + (tot - a) * ww[y]) in (1, 2):
+                            cases.append({"kind": "block", "multiset": x * a + y * (tot - a), "perms": False})
+                            found += 1
+                            break
+                    if found >= (1 if tier == "quick" else 3):
+                        break
     # after-context: homopolymers X^6, all ordered pairs as X^3 Y^4, STY-rich and long ones; 16 contexts each
     for x in T.AA:
         cases.append({"kind": "context", "multiset": x * 6})
@@ -275,7 +295,7 @@ def run(tier, seed, t0):
     return core.finish(
         PROP, tier, seed, acc, t0,
         rule="every multiset of 1..%d residues over the 20 amino acids with ALL its distinct permutations (= every word of "
-             "that length), plus all homopolymers X^a (a<=12) and two-residue blocks X^a Y^b (4<=a+b<=12) and long ones (130..1000 residues; 1000-2500 (thorough 12000) residues over all 20 residues); per sequence 18 real "
+             "that length), plus all homopolymers X^a (a<=12) and two-residue blocks X^a Y^b (4<=a+b<=12) window-complete words of 19..61 residues over all 20 residues, X^aY^b of 101..300 residues whose Wimley-White mean nearly cancels, and long ones (130..1000 residues; 1000-2500 (thorough 12000) residues over all 20 residues); per sequence 18 real "
              "getter calls (+ 13 calls with other spellings of the PPII scale name: capitalised, upper and mixed case, positional and keyword, default) (counts, fractions, FCR, NCPR, mean net charge, expanding, disorder-promoting, 20 aa fractions, "
              "KD 0-9 / Uversky / Wimley-White hydropathy, 3 PPII scales, molecular weight) compared with exact sums over pinned "
              "published tables, 5 identities, and equality across permutations; after-context pass: on one live object per X^6, X^3Y^4 (all 380 ordered pairs) and 5 longer words, 16 other API calls (kappa, Omega, kappa_X incl. groups absent from the sequence, pI, pH getters, phosphosites, linear profiles, complexity, palette) each followed by 14 composition getters that must still equal the per-residue sums, then the same getters plus length on eight derived objects (permutant, two shuffles, SeqObj-sharing wrapper, deepcopy, copy, pickle round trip, deep-copied backend object); non-trivial = multisets with >=2 distinct "
